@@ -4,7 +4,7 @@ from verif.core import Infra
 META = dict(
     technique="TLA+ call/return model of a parser on a piece-wise reader (exactly one return; ok => reader position = message boundary; no Panic/Hang action) model-checked by TLC for every input length, boundary and split into <= 3 pieces; the RFC 9112 reference (ReqFraming.tla) supplies the message boundary of concretised token pipelines; exhaustive small-scope token strings per parser grammar are run against the real parsers under recover + watchdog (B3)",
     design_ref="DESIGN.md §4 C08",
-    text="(A) ReqFraming vectors (every STRIDE-th pipeline) are concretised and read with Request.ReadLimitBody(+ContinueReadBody) from readers delivering the wire in <= 3 pieces with bufio sizes 4096/512/128: after success the bufio position must equal the RFC boundary of the first message. (B) For Request/Response.ReadLimitBody, ReadTrailer, Cookie.ParseBytes, URI.Parse, Args.ParseBytes, ParseByteRange, VisitHeaderParams and MultipartFormWithLimit every token string of length <= N over the parser's class alphabet plus seeded longer strings is parsed under recover and a 120 s watchdog; reader-based parsers with splits into <= 3 pieces at token boundaries, bufio sizes 16/64/4096 and maxBodySize 1,2,3,4,1MiB. Reported: panic, hang, reader position outside the input, position != RFC boundary, and over-read (a strict prefix of the consumed bytes already yields the same message).",
+    text="(A) ReqFraming vectors (every STRIDE-th pipeline) are concretised and read with Request.ReadLimitBody(+ContinueReadBody) from readers delivering the wire in <= 3 pieces with bufio sizes 4096/512/128: after success the bufio position must equal the RFC boundary of the first message. (B) For Request/Response.ReadLimitBody, the streaming request reader (Header.Read + ContinueReadBodyStream + draining the body stream), ReadTrailer, Cookie.ParseBytes, URI.Parse, Args.ParseBytes, ParseByteRange, VisitHeaderParams, MultipartFormWithLimit and bracketed IP-literal hosts (URI.Parse host, absolute URI, Host header + Request.URI) every token string of length <= N over the parser's class alphabet plus seeded longer strings is parsed under recover and a 120 s watchdog; reader-based parsers with splits into <= 3 pieces at token boundaries, bufio sizes 16/64/4096 and maxBodySize 1,2,3,4,1MiB. Reported: panic, hang, reader position outside the input, position != RFC boundary, and over-read (a strict prefix of the consumed bytes, continued with complete garbage lines, is consumed exactly and yields the same message). The message alphabets contain chunk-size lines of 15, 16 and 17 hex digits around the int range and bracketed Host values.",
     note="The spec says that a call returns once and where the message ends; it cannot explain why arbitrary bytes do not crash the code, so the no-panic/termination claim is exhaustive only within the enumerated token alphabets and length bounds (DESIGN §6). Trusted: TLC, Go toolchain, RFC transcription of ReqFraming.tla.",
 )
 
